@@ -1529,7 +1529,7 @@ bool Parser::parseAlignmentSpecifier_AtFirst(SpecifierSyntax*& spec)
     auto alignSpec = makeNode<AlignmentSpecifierSyntax>();
     spec = alignSpec;
     alignSpec->alignasKwTkIdx_ = consume();
-    return parseParenthesizedTypeNameOrExpression(alignSpec->tyRef_);
+    return parseParenthesizedTypeNameOrExpression(alignSpec->tyRef_, true);
 }
 
 /**
@@ -1545,7 +1545,7 @@ bool Parser::parseExtGNU_Typeof_AtFirst(SpecifierSyntax*& spec)
     auto typeofSpec = makeNode<ExtGNU_TypeofSyntax>();
     spec = typeofSpec;
     typeofSpec->typeofKwTkIdx_ = consume();
-    return parseParenthesizedTypeNameOrExpression(typeofSpec->tyRef_);
+    return parseParenthesizedTypeNameOrExpression(typeofSpec->tyRef_, true);
 }
 
 /**
